@@ -103,6 +103,19 @@ VARIANTS = [
 ]
 
 
+VARIANTS += [
+    V("twin-split-fullvector", ["C07", "C03"], H, "            middle = list(vector[(a < vector) * (vector < b)])", "            middle = [knot for knot in self if a < knot < b]", None, None, "middle knots taken from the full vector by a comprehension", twin=True),
+    V("twin-normalize-early-exit", ["C18"], K, "        self.shift(-self[0])\n        last = self[-1]", "        if self[0] == 0 and self[-1] == 1:\n            return self\n        self.shift(-self[0])\n        last = self[-1]", None, None, "early exit when already on [0, 1]", twin=True),
+    V("twin-eq-skip-if-equal", ["C13"], C, "        selfcopy = copy(self)\n        selfcopy.knotvector = newknotvec\n        othercopy = copy(other)\n        othercopy.knotvector = newknotvec\n", "        selfcopy = copy(self)\n        othercopy = copy(other)\n        if self.knotvector != other.knotvector:\n            selfcopy.knotvector = newknotvec\n            othercopy.knotvector = newknotvec\n", None, None, "refinement skipped only for equal knot vectors", twin=True),
+    V("twin-derivate-limits", ["C09"], CA, "        newknotvector = number_bound * [knotvector[0]] + number_bound * [knotvector[-1]]", "        umin, umax = curve.knotvector.limits\n        newknotvector = number_bound * [umin] + number_bound * [umax]", None, None, "derivative knot vector from the limits", twin=True),
+    V("twin-fit-cond-order", ["C11"], C, "        if self.weights is None and other.weights is None:\n            lstsq = heavy.LeastSquare.spline2spline", "        if other.weights is None and self.weights is None:\n            lstsq = heavy.LeastSquare.spline2spline", None, None, "conjuncts swapped", twin=True),
+    V("twin-apply-roots-local", ["C15", "C04", "C06"], C, "            if heavy.find_roots(tuple(newknotvector), newweights):\n                raise ValueError(\"Zero division in the new weights\")", "            roots = heavy.find_roots(tuple(newknotvector), newweights)\n            if roots:\n                raise ValueError(\"Zero division in the new weights\")", None, None, "zero-test through a local", twin=True),
+    V("twin-lru-int", ["C16", "C10"], H, "    @staticmethod\n    def factorial(number: int) -> int:", "    @staticmethod\n    @lru_cache(maxsize=None)\n    def factorial(number: int) -> int:", None, None, "memoisation keyed by an int", twin=True),
+    V("twin-span-cache-halfopen", ["C01"], H, "    for j, node in enumerate(nodes):\n        span = knotvector.span(node)\n        ind = spans.index(span)\n", "    ind = None\n    for j, node in enumerate(nodes):\n        if ind is None or not knots[ind] <= node < knots[ind + 1]:\n            span = knotvector.span(node)\n            ind = spans.index(span)\n", None, None, "span reused for consecutive nodes of the same (half-open) interval", twin=True),
+    V("twin-and-count", ["C17"], H, "                index = all_knots.index(knot)\n                mult = vector.mult(knot)\n                if mult < all_mults[index]:", "                index = all_knots.index(knot)\n                mult = vector.count(knot)\n                if mult < all_mults[index]:", None, None, "multiplicity taken with count()", twin=True),
+]
+
+
 def _sources(src_dir: str, v: dict) -> Optional[dict]:
     edits = v.get("edits") or [(v["module"], v["old"], v["new"])]
     out: Dict[str, str] = {}
